@@ -279,6 +279,14 @@ def check_float_reader(ctx, c, body, who, width, rule="R1.5"):
     """visit_str of a float visitor: 'NaN'/'Infinity'/'-Infinity' -> visit_fNN(NAN/INF/-INF)"""
     if float_reader_table(ctx, c, body, who, width, rule):
         return True
+    if " key " in f" {who} ":
+        # (path form) the numeric text of a key is parsed by str::parse::<fNN>() and by nothing else
+        fam_ = [body] + c.closures_of(body)
+        ps_ = [t for x in fam_ for _, t in x.calls() if t["call"]["name"] == "parse" and t["call"]["def"].startswith("core::str::<impl str>::parse") and [tystr(y) for y in t["call"].get("substs") or []] == [width]]
+        others_ = sorted({t["call"]["def"] for x in fam_ for _, t in x.calls() if t["call"]["name"] in ("from_str", "from_slice", "parse") and t not in ps_})
+        if ps_ or others_:
+            ctx.check(len(ps_) == 1 and not others_, rule, body.loc(), f"{who}|reads|numeric-key", f"{who}: the numeric text of a key must be parsed with str::parse::<{width}>() — the exact inverse of the Display the key writer uses — and with nothing else (found {len(ps_)} such call(s), other parsers {others_})",
+                      instance=f"{who}: numeric key text -> str::parse::<{width}>", nontrivial=False)
     cfg = CFG(body)
     seen = {}
     for bb, t in body.calls():
@@ -351,7 +359,7 @@ def float_reader_table(ctx, c, body, who, width, rule):
     I = minterp.Interp(F, c, inline=lambda d_, rid: rid.startswith(crate_prefix) and rid != body.id, max_depth=4)
     rows = []
     try:
-        for text in list(SPELL) + ["x", "nan", "inf", "-inf", "infinity", ""]:
+        for text in list(SPELL) + ["x", "nan", "inf", "-inf", "infinity", "", "1.5", "12"]:
             args = [("sym", f"a{k}") for k in range(1, body.argc + 1)]
             args[slot - 1] = inject(body.local_ty(slot), text)
             rows.append((text, I.run(body, args)))
@@ -370,8 +378,18 @@ def float_reader_table(ctx, c, body, who, width, rule):
         if text in SPELL:
             ctx.check(is_visit and r[1].endswith(f"visit_{width}") and val == SPELL[text], rule, body.loc(), f"{who}|reads|{SPELL[text]}",
                       f"{who}: the text {text!r} produces {minterp.show(I, r)[:80]}; expected visit_{width}({SPELL[text]})", instance=f"{who}: [{text!r}] -> visit_{width}({SPELL[text]})")
+        elif " key " in f" {who} ":
+            # map keys are always strings on the wire: a numeric text is parsed with the language's own (exact, round-tripping)
+            # float parser — the inverse of the Display the key writer uses; texts that are not numbers are not floats
+            if text in ("1.5", "12"):
+                ctx.check(is_visit and r[2] and isinstance(r[2][-1], float) and r[2][-1] == float(text), rule, body.loc(), f"{who}|reads|numeric-key",
+                          f"{who}: the key text {text!r} produces {minterp.show(I, r)[:80]}; it must be parsed with str::parse::<{width}>() (the exact inverse of the writer's Display) and handed to visit_{width}", instance=f"{who}: numeric key text -> str::parse -> visit_{width}")
+            elif text in ("x", ""):
+                ctx.check(val is None, rule, body.loc(), f"{who}|reads|other", f"{who}: the text {text!r} produces the float constant {val}", instance=f"{who}: non-numeric texts are not floats")
         else:
-            ctx.check(val is None, rule, body.loc(), f"{who}|reads|other", f"{who}: the text {text!r} (not a Conjure spelling) produces the non-finite constant {val}", instance=f"{who}: other texts take the ordinary path")
+            # value position: a JSON string is a double only if it is one of the three spellings
+            ctx.check(not is_visit, rule, body.loc(), f"{who}|reads|other", f"{who}: the string {text!r} (not a Conjure spelling) is delivered as a float ({minterp.show(I, r)[:60]}): in value position only \"NaN\", \"Infinity\" and \"-Infinity\" are doubles written as strings",
+                      instance=f"{who}: other strings are not doubles")
     ctx.ok(rule, body.loc(), f"{who}: three spellings read")
     return True
 
@@ -598,6 +616,20 @@ def run_end(ctx, c):
                           instance=f"{b.name}: T::deserialize(&mut {a_.split('::')[-1]})")
         if not des:
             continue
+        if b.argc >= 1 and "_from_" in b.name:
+            derived, work_ = set(), [1]
+            while work_:
+                l_ = work_.pop()
+                if l_ in derived:
+                    continue
+                derived.add(l_)
+                for _, uj, it in dt.uses_of_local(b, l_):
+                    if uj != "T" and "d" in it and ("ref" in it["r"] or "use" in it["r"]) and isinstance(it["d"], int):
+                        work_.append(it["d"])
+            other = sorted({t["call"]["name"] for l_ in derived for _, uj, t in dt.uses_of_local(b, l_) if uj == "T" and "call" in t
+                            and not (ty_adt(strip_refs(b.local_ty(place_local(t["dest"])) or {})) in entry_adts or t["call"]["name"] in ("from_reader", "from_str", "from_slice", "from_mut_slice", "new", "as_bytes", "as_ref", "into", "by_ref", "deref", "deref_mut", "borrow"))})
+            ctx.check(not other, "R1.6", b.loc(), f"{b.id}|input-to-constructor-only", f"{b.id}: the input source is also handed to {other}: reading from it outside the deserializer (a look-ahead, a short-read shortcut) makes the result depend on how the source delivers its bytes",
+                      instance=f"{b.name}: the input goes to the deserializer constructor only", nontrivial=False)
         n += 1
         cfg = CFG(b)
         de_adt = ty_adt(des[0][1]["call"]["substs"][1])
